@@ -191,7 +191,13 @@ pub fn run(repo: &Path, out: &Path) -> Result<(), String> {
                         struct Arms(bool);
                         impl<'ast> Visit<'ast> for Arms {
                             fn visit_arm(&mut self, a: &'ast syn::Arm) {
-                                if matches!(a.pat, syn::Pat::Wild(_)) {
+                                // a catch-all arm: `_` or a plain binding (`other => ..`)
+                                let catch_all = match &a.pat {
+                                    syn::Pat::Wild(_) => true,
+                                    syn::Pat::Ident(pi) => pi.subpat.is_none() && pi.ident.to_string().chars().next().map(|c| c.is_lowercase()).unwrap_or(false),
+                                    _ => false,
+                                };
+                                if catch_all {
                                     if let syn::Expr::Call(c) = &*a.body {
                                         if path_ident(&c.func).map(|x| x == "Err").unwrap_or(false) {
                                             self.0 = true;
